@@ -100,6 +100,29 @@ func main() {
 			})
 		}
 		return
+	case "table":
+		li := BuildLocks(c)
+		bs := &boolSummer{li: li}
+		for _, fn := range c.Concrete() {
+			if flag.NArg() > 1 && !strings.Contains(fnKey(fn), flag.Arg(1)) {
+				continue
+			}
+			idx := 0
+			if flag.NArg() > 2 {
+				fmt.Sscanf(flag.Arg(2), "%d", &idx)
+			}
+			atoms, rows, ok := bs.boolTable(fn, idx)
+			fmt.Printf("### %s ok=%v atoms=%v rows=%d\n", fnKey(fn), ok, atoms, len(rows))
+			seen := map[string]bool{}
+			for _, r := range rows {
+				k := fmt.Sprintf("  %v <= %s", r.result, r.path)
+				if !seen[k] {
+					seen[k] = true
+					fmt.Println(k)
+				}
+			}
+		}
+		return
 	case "fns":
 		for _, fn := range c.Concrete() {
 			fmt.Println(fnKey(fn), "\t", fn.String())
